@@ -66,9 +66,9 @@ def prepare(run, debug=False):
 MORE_PROPS = {"theories/props/C15.v": ["theories/props/C15_state.v", "theories/props/C15_indep.v"],
               "theories/props/C12.v": ["theories/props/C12_nested.v"],
               "theories/props/C05.v": ["theories/props/C05_leaves.v", "theories/props/C05_tokens.v"],
-              "theories/props/C14.v": ["theories/props/C14_roundtrip.v"],
-              "theories/props/C02.v": ["theories/props/C14_roundtrip.v"],
-              "theories/props/C03.v": ["theories/props/C14_roundtrip.v", "theories/props/C03_shapes.v"],
+              "theories/props/C14.v": ["theories/props/C14_roundtrip.v", "theories/props/C02_roundtrip.v"],
+              "theories/props/C02.v": ["theories/props/C14_roundtrip.v", "theories/props/C02_roundtrip.v"],
+              "theories/props/C03.v": ["theories/props/C14_roundtrip.v", "theories/props/C03_shapes.v", "theories/props/C02_roundtrip.v"],
               "theories/props/C01.v": ["theories/props/C01_depth.v"],
               "theories/props/C16.v": ["theories/props/C16_errors.v", "theories/props/C16_tokens.v"]}
 
